@@ -3,6 +3,7 @@
 from __future__ import annotations
 
 import ast
+import builtins
 import operator as op
 import os
 import re
@@ -177,6 +178,14 @@ def _merge_element_types(types: List[str]) -> str:
     if "bool" in unique:
         return "bool"
     return unique[0]
+
+# Python built-ins that have no counterpart in the generated sketch (a call would
+# be emitted verbatim and name a function that does not exist).
+_UNSUPPORTED_BUILTINS = frozenset(
+    name
+    for name in dir(builtins)
+    if callable(getattr(builtins, name)) and not name.startswith("_")
+) - {"abs", "min", "max", "len", "int", "float", "bool", "str", "round", "pow", "map"}
 
 _BUILTIN_CALL_RETURN_TYPES = {
     "int": "int",
@@ -581,6 +590,11 @@ def _to_c_expr(
             )
 
         if isinstance(n, ast.BinOp) and type(n.op) in _BIN:
+            operand_types = (_infer_arg_type(n.left), _infer_arg_type(n.right))
+            if any(label and _is_list_type(label) for label in operand_types):
+                raise ValueError("arithmetic on lists is not supported")
+            if "String" in operand_types and not isinstance(n.op, ast.Add):
+                raise ValueError("only + is supported on strings")
             if isinstance(n.op, ast.Div):
                 # Python's ``/`` is true division even for two integers.
                 return f"(static_cast<float>({emit(n.left)}) / {emit(n.right)})"
@@ -948,7 +962,7 @@ def _to_c_expr(
                 return f"__redu_abs({emit(n.args[0])})"
             if fname in {"max", "min"} and len(n.args) >= 1 and not n.keywords:
                 if len(n.args) == 1:
-                    return emit(n.args[0])
+                    raise ValueError(f"{fname}() of a sequence is not supported")
                 _mark_helper("math")
 
                 def _fold(exprs: List[str]) -> str:
@@ -973,6 +987,8 @@ def _to_c_expr(
                     return f"__redu_pow({emit(n.args[0])}, {emit(n.args[1])})"
                 if fname in {"map", "round", "pow"}:
                     raise ValueError(f"{fname}() is not supported with these arguments")
+            if not user_defined and fname in _UNSUPPORTED_BUILTINS:
+                raise ValueError(f"the built-in function {fname}() is not supported")
             if n.keywords:
                 raise ValueError("unsupported keyword arguments in call")
             # Record the call signature wherever the call appears (not only on the
